@@ -335,6 +335,47 @@ def h_discovery(i1: int, i2: int, nseg: int, slash: bool, restarts: int, bare_ex
     return run(body_discovery, i1, i2, nseg, slash, restarts, bare_existing, plain_last)
 
 
+# ------------------------------------------------------------------ the chain on the REAL stack
+REAL_PRINCIPALS = ["/user/", "/u s/\u00e9", "/a/b.c/", "/x#y", "/a+b/user", "/user"]
+
+
+def body_real_discovery(pi, defaults, restarts):
+    """The discovery chain with REAL XML through the real WSGI entry point over REAL on-disk repositories
+    (xv/real_c18.py): data directory missing at first start, principal from a menu, --defaults or --autocreate, a user
+    calendar created under the advertised home set, 0..2 restarts: the principal is one, principal-URL leads back,
+    the home sets list the user's (and the default) collections, user data survives."""
+    from xv.core import picks, untraced
+    principal, defaults, restarts = picks((pi, defaults, restarts), (REAL_PRINCIPALS, "bool", 3))
+    with untraced():
+        from xv.core import real_stack
+        if not real_stack("wsgi"):
+            return (True, "real-unavailable")
+        import json
+        import os
+        import subprocess
+        import xv
+        script_name = ctx.PART
+        p = subprocess.run(["/venv/bin/python", os.path.join(os.path.dirname(__file__), "..", "real_c18.py"),
+                            json.dumps({"principal": principal, "defaults": defaults, "script_name": script_name, "restarts": restarts})],
+                           capture_output=True, text=True, cwd=xv.REPO, env={"PATH": os.environ.get("PATH", ""), "PYTHONPATH": xv.REPO},
+                           timeout=300)
+        if p.returncode != 0:
+            raise RuntimeError("real discovery driver failed: " + p.stderr[-600:])
+        res = json.loads(p.stdout)
+        if not res["ok"]:
+            ctx.LAST_EXC = res["why"]
+            return (False, "real-chain")
+        return (True, "real:" + ("defaults" if defaults else "autocreate"))
+
+
+def h_real_discovery(pi: int, defaults: bool, restarts: int) -> bool:
+    """
+    pre: 0 <= pi < len(REAL_PRINCIPALS) and 0 <= restarts <= 2
+    post: _
+    """
+    return run(body_real_discovery, pi, defaults, restarts)
+
+
 def body_wellknown(which, sn_in_script):
     """.well-known/caldav and /carddav redirect to the DAV root (WSGI wrapper and aiohttp handler)."""
     import xandikos.wsgi_helpers as H
@@ -379,6 +420,16 @@ _PARTS_T = [(p, w, m) for p in PREFIXES for w in (False, True) for m in ("defaul
     (p, False, m) for p in PREFIXES for m in ("cli-defaults", "cli-autocreate")]
 
 HARNESSES = [
+    Harness("real_discovery", h_real_discovery, body_real_discovery, classes=[("real:defaults", ""), ("real:autocreate", "/dav")],
+            parts={"quick": ["", "/dav", "/a/b"]}, budget={"quick": 120, "thorough": 240}, per_path_timeout={"quick": 60, "thorough": 60},
+            twin_budget={"quick": 60, "thorough": 90},
+            describe="the discovery chain with real XML through the real WSGI entry point over REAL on-disk repositories: 6 "
+                     "principal paths x --defaults / --autocreate x 0..2 restarts, data directory missing at first start; part "
+                     "= SCRIPT_NAME (xv/real_c18.py); exhaustive over the menu",
+            encodes=["xandikos.web.XandikosBackend.create_principal", "xandikos.web.XandikosBackend._mark_as_principal",
+                     "xandikos.web.create_principal_defaults", "xandikos.webdav.CurrentUserPrincipalProperty.get_value",
+                     "xandikos.caldav.CalendarHomeSetProperty.get_value", "xandikos.carddav.AddressbookHomeSetProperty.get_value",
+                     "xandikos.webdav.PrincipalURLProperty.get_value"]),
     Harness("discovery", h_discovery, body_discovery,
             classes=[("defaults:restarts0", ("/", False, "defaults")), ("defaults:restarts1", ("/dav/", False, "defaults")),
                      ("autocreate:restarts1", ("/", True, "autocreate")),
